@@ -145,6 +145,7 @@ func (e *Engine) enterLoop(fr *Frame, li *loopInfo, cur *State) *State {
 		t := a.Type().(*types.Pointer).Elem()
 		ts := freshTerms(fmt.Sprintf("loop%d.%s", e.loopSeq+1, a.Comment), t)
 		st.assume(wfAssumptions(ts, t, true))
+		e.assumeNotFuture(st, ts, t)
 		st.cells[k] = ts
 		delete(st.clos, k)
 		delete(st.caddr, k)
